@@ -39,7 +39,7 @@ def line_can_raise(code, lineno):
 
 class LineTracer:
     def __init__(self, k, prefixes, exclude=(), crash_at=None, crash_filter=None, yield_lines=True,
-                 crash_exc=InjectedFault):
+                 crash_exc=InjectedFault, targets=None):
         self.k = k
         self.prefixes = tuple(prefixes)
         self.exclude = tuple(exclude)
@@ -51,6 +51,10 @@ class LineTracer:
         self.crash_points = 0
         self.crashed_at = None
         self.armed = True
+        #: targeted pre-emption (strategy C): {function name: (thread to switch to, probability per line)} - at a line
+        #: of such a function the scheduler is asked to hand over to that thread; the draw is part of the choice trace
+        self.targets = targets or {}
+        self.target_n = 0
 
     def install(self):
         sys.settrace(self.global_trace)
@@ -76,6 +80,13 @@ class LineTracer:
                                        frame.f_lineno)
                     self.k.fault("crash_point")
                     raise self.crash_exc("injected at %s:%s:%d" % self.crashed_at)
+            if self.targets:
+                tg = self.targets.get(frame.f_code.co_name)
+                if tg is not None:
+                    self.target_n += 1
+                    if self.k.ch.draw("target", self.target_n, False, lambda r: r.random() < tg[1]):
+                        self.k.force_switch_to = tg[0]
+                        self.k.probe("targeted_switch_requested")
             if self.yield_lines:
                 self.k.yield_point("line")
         return self.local_trace
